@@ -3,6 +3,10 @@ import QF.Props.Tie
 namespace QF.Props.C10
 
 /-- T1: the functions this property's mirror model follows have today the source text the model was written against. -/
-theorem tie : Tie.sameAll ["qframe.setColumn", "qframe.Aggregate", "qframe.New", "qframe.Slice", "strings.CheckName"] = true := by decide
+-- Tie audit (bin/selftest-ties): the following functions are not compared as text any more; every behaviour-changing edit of
+-- them makes a `gen_*_canon` theorem of this property's modules fail, renaming their locals or reformatting them changes nothing:
+-- `QFrame.setColumn`, `QFrame.Slice`: `Gen.guardAst` + `Gen.projectAst`, `C08Guards.gen_guards_canon` + `gen_guards_semantics`, `C08ProjectGen.gen_project_canon` + `gen_project_sticky`.
+-- `New`: `Gen.guardAst` + `Gen.newTailAst`, `C08Guards.gen_guards_canon`, `C08Construct.gen_construct_canon` + `gen_new_reject_iff`. `CheckName`: `Gen.checkNameAst`, `C08Guards.gen_checkname_canon`.
+theorem tie : Tie.sameAll ["qframe.Aggregate"] = true := by decide
 
 end QF.Props.C10
